@@ -68,7 +68,14 @@ bool check_with_user(const std::string& question, std::ostream& out, Default def
     return is_truthy;
 }
 
-static std::string guess_filepath(const Patch& patch)
+// Until apply_patch has reversed the patch itself for the 'reverse' option, a
+// patch which deletes a file is one which adds it, and the other way around.
+static bool is_adding_file(const Patch& patch, const Options& options)
+{
+    return patch.operation == (options.reverse_patch ? Operation::Delete : Operation::Add);
+}
+
+static std::string guess_filepath(const Patch& patch, const Options& options)
 {
     // POSIX specifies that after stripping using the '-p' option then the existence of both the old
     // and new files are tested. If both paths exist then patch should not be able to determine
@@ -92,8 +99,8 @@ static std::string guess_filepath(const Patch& patch)
     if (patch.index_file_path != "/dev/null" && filesystem::exists(patch.index_file_path))
         return patch.index_file_path;
 
-    if (patch.operation == Operation::Add)
-        return patch.new_file_path;
+    if (is_adding_file(patch, options))
+        return options.reverse_patch ? patch.old_file_path : patch.new_file_path;
 
     return {};
 }
@@ -499,7 +506,7 @@ int process_patch(const Options& options)
         if (options.verbose)
             out << "Hmm...  Looks like a " << to_string(info.format) << " diff to me...\n";
 
-        auto file_to_patch = options.file_to_patch.empty() ? guess_filepath(patch) : options.file_to_patch;
+        auto file_to_patch = options.file_to_patch.empty() ? guess_filepath(patch, options) : options.file_to_patch;
 
         if (file_to_patch.empty()) {
             out << "can't find file to patch at input line " << parser.line_number()
@@ -554,7 +561,7 @@ int process_patch(const Options& options)
 
         File input_file;
         input_file.open(file_to_patch, mode | std::ios_base::in);
-        if (!input_file && (errno != ENOENT || patch.operation != Operation::Add))
+        if (!input_file && (errno != ENOENT || !is_adding_file(patch, options)))
             throw std::system_error(errno, std::generic_category(), "Unable to open input file " + file_to_patch);
 
         const auto input_lines = file_as_lines(input_file);
